@@ -136,6 +136,19 @@ def correspondence(rep, rng, tier):
             if k % 4 == 3:
                 c['end'] = [rng.choice(NEGATIVES)] + list(c['end'][1:])
             cases.append(c)
+    # a kind / family / signal number with ONE flag bit on top (socket types carry SOCK_NONBLOCK / SOCK_CLOEXEC on some hosts):
+    # the known readers and the candidate decoders on every (position, small number, bit 8..31)
+    flagged = sorted(set(ENUM_READERS) | (candidates() if rep.broken or tier != 'quick' else set()))
+    for n in flagged:
+        if n not in D.all_handler_names():
+            continue
+        base = D.make_case(rng, n)
+        for pos in range(4):
+            for small in (1, 2, 3, 5):
+                for b in range(8, 32):
+                    c = dict(base, start=list(base['start']))
+                    c['start'][pos] = small | (1 << b)
+                    cases.append(c)
     A = host_texts(cases)
     B = darwin_texts(cases)
     for c, a, b in zip(cases, A, B):
@@ -148,7 +161,14 @@ def correspondence(rep, rng, tier):
         if n in bsd_handlers and ht['errno'].get(c['end'][0]) != DARWIN_ERRNO.get(c['end'][0]):
             reason = 'errno'
         for t in ENUM_READERS.get(n, []):
-            reason = reason or t
+            # a KNOWN reader explains a difference only at a code where its table differs between the hosts: some START word
+            # that the host's table and Darwin's name differently (solSocket: a word equal to either SOL_SOCKET value)
+            if t == 'solSocket':
+                hit = any(w in (ht['solSocket'], DARWIN_SOL) for w in c['start']) and ht['solSocket'] != DARWIN_SOL
+            else:
+                hit = any(ht[t].get(w) != ref[t].get(w) for w in c['start'])
+            if hit:
+                reason = reason or t
         if reason is None:
             rep.add_failure('host:new-dependence:' + n, 'decoder %s renders %r on this host and %r with Darwin tables'
                             % (n, a, b), {'section': 'table-swap', 'case': c})
